@@ -2,6 +2,7 @@ package rules
 
 import (
 	"go/ast"
+	"go/token"
 	"go/types"
 
 	"arkverif/checker/core"
@@ -190,7 +191,7 @@ func callTo(m *core.Model, call *ast.CallExpr, f *core.Func) (ast.Expr, bool) {
 // tableIDExpr returns the canonical string of the id of the table designated by expression t inside f:
 // X.tables[ID] -> ID; a local defined as &X.tables[ID] (all definitions agree) -> ID; otherwise t + ".id".
 func tableIDExpr(m *core.Model, f *core.Func, t ast.Expr) string {
-	t = ast.Unparen(t)
+	t = ast.Unparen(m.Inline(ast.Unparen(t)))
 	if u, ok := t.(*ast.UnaryExpr); ok {
 		t = ast.Unparen(u.X)
 	}
@@ -201,13 +202,21 @@ func tableIDExpr(m *core.Model, f *core.Func, t ast.Expr) string {
 			}
 		}
 	}
-	return m.ExprString(t) + ".id"
+	return m.BaseString(t) + ".id"
 }
 
 // tableIDAlternatives returns all canonical id strings equivalent to the id of table expression t in f
 // (the expression itself plus the index expressions of its definitions when t is a local).
 func tableIDAlternatives(m *core.Model, f *core.Func, t ast.Expr) map[string]bool {
 	out := map[string]bool{tableIDExpr(m, f, t): true}
+	{
+		// the id field read through the table expression itself (locals resolved, address-of dropped)
+		b := ast.Unparen(m.Inline(ast.Unparen(t)))
+		if u, ok := b.(*ast.UnaryExpr); ok && u.Op == token.AND {
+			b = u.X
+		}
+		out[m.ExprString(b)+".id"] = true
+	}
 	if id, ok := ast.Unparen(t).(*ast.Ident); ok {
 		if v, ok := m.Info.ObjectOf(id).(*types.Var); ok {
 			for _, d := range localDefsOf(m, f, v) {
